@@ -25,7 +25,7 @@ RULE = ("seeded products: sample type x geometry class (1x1,1xN,Nx1,NxM; lines u
         "(type, geometry, pattern, filesystem, rpc class) signatures")
 ASSUMPTIONS = ["only well-formed image files are generated (record length = prefix + pixels x sample size)",
                "expected samples are taken from the bytes the independent encoder wrote"]
-REQUIRED_OBS = ["elements_compared", "contracts_ok", "replaced_in_place"]
+REQUIRED_OBS = ["elements_compared", "contracts_ok", "replaced_in_place", "huge_images", "pow2_span_images", "twins_under_the_same_root_string"]
 
 PATTERNS = ["random", "random", "edges", "zeros", "ones", "index", "finite"]
 N_RANDOM = {"quick": 360, "thorough": 6000}
@@ -64,6 +64,7 @@ def run_case(i, tier, seed):
     obs = {"elements_compared": 0, "opens": 0, "images": 0}
     violations = []
     sigs = []
+    forced_rpcs, special = None, None
     if i >= nrand:
         # exhaustive block: one case per (type, lines) and all rpc 1..Lmax+1
         j = i - nrand
@@ -82,6 +83,16 @@ def run_case(i, tier, seed):
         k = rng.choice([1, 1, 2, 3, 4])
         geoms0 = [_geometry(rng, tier) for _ in range(k)]
         pat0 = rng.choice(PATTERNS)
+        if i % 19 == 7:
+            # round sizes: one full group of rpc lines spans exactly 2**k bytes (4 KiB .. 1 MiB quick, .. 8 MiB thorough)
+            g = harness.pow2_geometry(typ, rng.randrange(12, 21 if tier == "quick" else 24), rng)
+            if g:
+                geoms0, forced_rpcs = [(g[0], g[1])], sorted({g[2], 2 * g[2], 1024})
+                special = "pow2-span"
+        if i == nrand - 1 or (tier == "thorough" and i % 1000 == 999):
+            # one image larger than 64 MiB, default request size and one small one
+            geoms0 = [(rng.randrange(68, 72), 124900)] if typ == "C*8" else [(rng.randrange(270, 280), 124900)]
+            forced_rpcs, special, pat0 = [1024, 16], "huge", "index"
         # the second product has the same file names and geometry but other samples and lives elsewhere:
         # anything remembered per file *name* across opens shows up as the first product's pixels
         # the third product REPLACES the first one in place (same filesystem, root, names, geometry; other samples):
@@ -90,11 +101,21 @@ def run_case(i, tier, seed):
         rpcs_for = lambda n: harness.rpc_candidates(n, rng)
     sample = None
     fixed_rpcs = None
-    rich = i < nrand and rng.random() < 0.4
+    rich = i < nrand and rng.random() < 0.4 and special is None
     root0 = None
+    if special == "huge":
+        products = products[:1]
+        obs["huge_images"] = 1
+    if special == "pow2-span":
+        obs["pow2_span_images"] = 1
+    # for a third of the cases the twin lives under the SAME root string on another filesystem (memory / vfs / lvfs all name
+    # their roots '/<name>'): anything keyed by the path without the filesystem confuses the two
+    same_root = i < nrand and i % 3 == 0 and special is None
     for pidx, (geoms, pattern) in enumerate(products):
         if i < nrand:
             kind = harness.FS_KINDS[(i + (pidx % 2)) % 6]
+            if same_root:
+                kind = ["memory", "vfs", "lvfs"][(i // 3 + (pidx % 2)) % 3]
         pols = ["HH", "HV", "VH", "VV"][: len(geoms)]
         names = gen.product_names(level, pols=pols)
         files = {}
@@ -115,7 +136,9 @@ def run_case(i, tier, seed):
         order = [names["vol"], names["led"], *names["imgs"], names["trl"]]
         files["summary.txt"] = synth.summary_text(
             synth.default_summary_entries(order, names["tag"], names["pid"], names["scene"], [(1, 1)])).encode()
-        root = root0 if (pidx == 2 and root0) else harness.unique_root(kind, rng=rng)
+        root = root0 if ((pidx == 2 or (pidx == 1 and same_root)) and root0) else harness.unique_root(kind, rng=rng)
+        if pidx == 1 and same_root:
+            obs["twins_under_the_same_root_string"] = obs.get("twins_under_the_same_root_string", 0) + 1
         if pidx == 0:
             root0 = root
         if pidx == 2:
@@ -126,6 +149,8 @@ def run_case(i, tier, seed):
             rpcs = sorted(set(r for n, (l, p) in zip(names["imgs"], geoms) for r in rpcs_for(l)))
             if i < nrand and len(rpcs) > 4:
                 rpcs = sorted(rng.sample(rpcs, 4))
+            if forced_rpcs:
+                rpcs = forced_rpcs
             if i < nrand:
                 fixed_rpcs = fixed_rpcs or rpcs
                 rpcs = fixed_rpcs
@@ -141,7 +166,7 @@ def run_case(i, tier, seed):
                     g = harness.group_name(n)
                     exp = expected[n]
                     bits = refdec.samples_bits(exp)
-                    sigs.append(f"{typ}|{harness.geom_class(lines, pixels)}|{pattern}|{kind}|rpc:{harness.rpc_class(rpc, lines)}"
+                    sigs.append(f"{typ}|{special or harness.geom_class(lines, pixels)}|{pattern}|{kind}|rpc:{harness.rpc_class(rpc, lines)}"
                                 + ("|rich-prefix" if rich else "") + ("|replaced" if pidx == 2 else ""))
                     try:
                         da = tree[f"imagery/{g}/data"]
